@@ -450,9 +450,9 @@ func (w *World) correlatedPairs(call *ssa.Call, si, pi int) ([]corrPair, bool) {
 }
 
 func ruleC05Anchors(w *World, r *Report) {
-	r.rule("C05/R1", "no token.Pos field of a node is left at its zero value at any allocation site (a forgotten field reads as offset 0)", 200)
-	r.rule("C05/R2", "at every allocation site the pos and end specifications evaluate to a valid position: the last alternative of each ||/?? chain is present", 400)
-	r.rule("C05/R3", "at every allocation site pos evaluates to the start of a token (or a child's pos) and end to the end of a token, a child's end, or start + n with n = the byte length of that token as fixed by the guards on the path", 400)
+	r.rule("C05/R1", "no token.Pos field of a node is left at its zero value at any allocation site (a forgotten field reads as offset 0)", 100)
+	r.rule("C05/R2", "at every allocation site the pos and end specifications evaluate to a valid position: the last alternative of each ||/?? chain is present", 200)
+	r.rule("C05/R3", "at every allocation site pos evaluates to the start of a token (or a child's pos) and end to the end of a token, a child's end, or start + n with n = the byte length of that token as fixed by the guards on the path", 200)
 	sites := w.sites()
 	if len(sites) < 250 {
 		r.errorf("only %d allocation sites of ast nodes found in the parser", len(sites))
@@ -605,7 +605,7 @@ func (w *World) fieldPresent(si *siteInfo, field string) bool {
 
 func ruleC05R5(w *World, r *Report) {
 	const rule = "C05/R5"
-	r.rule(rule, "in every production the node-typed fields of a node are parsed in their declaration order (field declaration order = source order, which Walk relies on); ast.CreateTable is exempt (its elements are grouped by kind)", 80)
+	r.rule(rule, "in every production the node-typed fields of a node are parsed in their declaration order (field declaration order = source order, which Walk relies on); ast.CreateTable is exempt (its elements are grouped by kind)", 40)
 	cat := w.Catalog()
 	type agg struct {
 		bad   []string
@@ -709,8 +709,8 @@ func chainFields(e PExpr) []string {
 }
 
 func ruleC06Order(w *World, r *Report) {
-	r.rule("C06/R1", "the field that yields pos at a site is produced by the first event of the production for this node: no other present field's event precedes it, apart from fields listed earlier in the pos chain", 250)
-	r.rule("C06/R2", "end chains: (a) alternatives are listed in the reverse order of their parse events; (b) every field whose parse event lies after the event of the last (mandatory) alternative is part of the chain", 250)
+	r.rule("C06/R1", "the field that yields pos at a site is produced by the first event of the production for this node: no other present field's event precedes it, apart from fields listed earlier in the pos chain", 125)
+	r.rule("C06/R2", "end chains: (a) alternatives are listed in the reverse order of their parse events; (b) every field whose parse event lies after the event of the last (mandatory) alternative is part of the chain", 125)
 	cat := w.Catalog()
 	type agg struct {
 		bad   []string
@@ -879,7 +879,7 @@ func ruleC05R1Only(w *World, r *Report) {
 // place although every position and the root's SQL() are right.
 func ruleC06R4(w *World, r *Report) {
 	const rule = "C06/R4"
-	r.rule(rule, "for node types whose pos is a single anchor: when the anchor is the position field of a token of known kind(s), every printed form of SQL() starts with constant text that begins with one of those spellings; when it is a child's pos, SQL() starts by printing that child. Likewise the end: `F + n` — SQL() ends with constant text ending in the spelling of F's token; a child's end — SQL() ends by printing that child", 250)
+	r.rule(rule, "for node types whose pos is a single anchor: when the anchor is the position field of a token of known kind(s), every printed form of SQL() starts with constant text that begins with one of those spellings; when it is a child's pos, SQL() starts by printing that child. Likewise the end: `F + n` — SQL() ends with constant text ending in the spelling of F's token; a child's end — SQL() ends by printing that child", 125)
 	cat := w.Catalog()
 	// kinds of the token whose start is stored in a position field, over all sites
 	kindsOf := func(ns *NodeStruct, field string) ([]string, bool) {
